@@ -108,6 +108,12 @@ def generalise(acc):
         g["n"] += v["n"]
         g["fields"] |= set(v["fields"])
         g["entries"].add(e)
+    # closure under seeds: random (havoc) mutations carry no field role, so a requesting function known through
+    # any role is known under `havoc` as well (the plan items, which do carry roles, stay discriminating)
+    for (ent, o, gkey, role), g in list(groups.items()):
+        if o == "hugealloc" and role != "havoc":
+            h = groups.setdefault((ent, o, gkey, "havoc"), {"n": 0, "fields": set(), "entries": set()})
+            h["entries"] |= g["entries"]
     return groups
 
 
